@@ -84,45 +84,16 @@ end
 mutual
 /-- the tree that names see: a `_BackendData` wrapper is tokenized as its data
     (`normalize_data_wrapper` returns `data._token`) -/
-def toE : PE → E
+def toE : PE → E Nat
   | .node c ops => .node c (toOps ops)
-def toO : POp → Operand
+def toO : POp → Operand Nat
   | .lit t => .lit t
   | .sub e => .sub (toE e)
   | .seq l => .seq (toOps l)
   | .backend d _ => .lit d
-def toOps : List POp → List Operand
+def toOps : List POp → List (Operand Nat)
   | [] => []
   | o :: os => toO o :: toOps os
 end
-
-/-! ### observables that read process-global state
-
-  How a method (`_meta`, `_divisions`, `_layer`, …) obtains a value `f key` that is also memoised in
-  a process-global cache: -/
-inductive Discipline where
-  | pure          -- computed from operands only
-  | recompute     -- `if key in cache: return cache[key]; v = compute(); cache[key] = v; return v`
-  | assertHit     -- `assert key in cache; return cache[key]`
-deriving DecidableEq, Repr
-
-def observe {κ ν : Type} [DecidableEq κ] (d : Discipline) (cap : Nat) (f : κ → Option ν)
-    (c : Cache.LRU κ ν) (k : κ) : Option ν × Cache.LRU κ ν :=
-  match d with
-  | .pure => (f k, c)
-  | .recompute => Cache.getOrComputeA cap f c k
-  | .assertHit => Cache.assertHit c k
-
-/-- one row of Generated/CacheSites.lean: function `func` touches cache `cache` -/
-structure Site where
-  cache : String        -- the global object
-  func : String         -- module:qualified function name
-  reads : Bool          -- `cache[key]` is evaluated
-  writes : Bool         -- `cache[key] = …`, `.clear()`, `.pop()`
-  guarded : Bool        -- every read is protected by a membership test whose miss branch computes and stores
-  asserts : Bool        -- a miss is an `assert` failure
-  observable : Bool     -- `func` is (called from) `_meta` / `_divisions` / `_layer` / `npartitions` of an expression class
-  key : String          -- source text of the key expression(s)
-deriving Repr, DecidableEq
 
 end Dx.Pickle
